@@ -39,12 +39,12 @@ RULE = ("cases: sequences of update(model, scale, indices) on fixed and adaptive
         "(single design explicit), None, duplicates; scale 0-d / (1,) / (m,) / (n,1) / (n,m) and malformed; "
         "intersect_iteratively toggled on the region objects; geometric shapes nested / overlapping / "
         "touching / disjoint / identical / degenerate / thin overlaps (2^-7..2^-12) at offsets 2^10..2^20; "
-        "refinement between updates (adaptive); model data "
+        "objective dimension 1..4; direct region.update calls with covariance (m,m) and (1,m,m) incl. (1,1), "
+        "(1,1,1) (fixed family); refinement between updates (adaptive); model data "
         "added between updates; non-trivial = at least two updates of some design or a proper subset "
         "updated; distinct by the full case")
 ASSUMPTIONS = ["std = numpy sqrt(diag cov) is taken as the exact half-width factor (float sqrt not modelled)",
-               "objective dimension >= 2 (a 1x1 covariance makes np.diag(cov.squeeze()) raise; reported "
-               "separately as information)"]
+               ]
 MAX_JOBS = 14
 
 SQUEEZERS = ("IndependentExactGPyTorchModel", "CorrelatedExactGPyTorchModel")
@@ -228,7 +228,7 @@ def _stub_table(rng, n, m, exact, near=None, geo=None):
 
 
 def _case_stub(rng, exact):
-    m = rng.choice([2, 2, 3, 4])
+    m = rng.choice([1, 2, 2, 3, 4])
     n = rng.randint(1, 7)
     conf = rng.choice(["rect", "rect", "rect", "ell"])
     pts = [[float(i), float((i * 7) % 5)] for i in range(n)]
@@ -262,7 +262,7 @@ GEO = ["identical", "nested", "contains", "overlap", "touch-low", "touch-up", "v
 def _case_geo(rng):
     """exact lattice, every region intersecting iteratively, each update placed in a chosen geometric
     relation to the rectangle the design currently has (tracked here with exact dyadic arithmetic)"""
-    m = rng.choice([2, 2, 3])
+    m = rng.choice([1, 2, 2, 3])
     n = rng.randint(1, 5)
     pts = [[float(i), float((i * 7) % 5)] for i in range(n)]
     ops = [{"op": "iter", "b": True, "idx": list(range(n))}]
@@ -333,7 +333,7 @@ def _case_geo(rng):
 
 
 def _case_adaptive(rng, model):
-    m = model.get("m") or rng.choice([2, 3])
+    m = model.get("m") or rng.choice([1, 2, 3])
     d = model.get("d") or rng.choice([1, 2])
     ops = []
     n = 1
@@ -390,6 +390,86 @@ def _case_real(rng, model):
             "shape": "fixed-" + (model.get("cls") or model["kind"])}
 
 
+def _direct_cases(seed):
+    """Deterministic family (own RNG sub-stream, in every run): `region.update(mean, covariance, scale)` called
+    directly, objective dimension 1, 2, 3, the covariance handed over as (m, m) and with a leading batch axis
+    (1, m, m) — for m = 1 that is (1, 1) and (1, 1, 1) —, scale 0-d / (1,) / (m,), fresh and preset
+    rectangles with and without iterative intersection, and ellipsoids ((m, m) only)."""
+    import random
+
+    rng = random.Random(f"C14-direct:{seed}")
+    for m in (1, 1, 2, 3):
+        for covshape in ("mm", "1mm"):
+            for it in (False, True):
+                for sform in ("scalar", "vec1", "vecm"):
+                    mean = [_dy(rng, -16, 16, 2) for _ in range(m)]
+                    sd = [_dy(rng, 0, 8, 1) for _ in range(m)]
+                    cov = [[(sd[a] * sd[a] if a == b else _dy(rng, -2, 2, 2)) for b in range(m)] for a in range(m)]
+                    sc = {"form": "scalar", "val": _dy(rng, 0, 8, 2)} if sform == "scalar" else \
+                        {"form": "vec", "val": [_dy(rng, 0, 8, 2) for _ in range(1 if sform == "vec1" else m)]}
+                    pre = None
+                    if it or rng.random() < 0.5:
+                        lo = [mu - _dy(rng, 0, 6, 1) for mu in mean]
+                        pre = [lo, [a + _dy(rng, 0, 12, 1) for a in lo]]
+                    yield {"kind": "direct", "shape": "direct-region", "conf": "rect", "m": m, "covshape": covshape,
+                           "iter": it, "pre": pre, "mean": mean, "cov": cov, "scale": sc}
+        for sform in ("scalar", "vec1"):
+            mean = [_dy(rng, -16, 16, 2) for _ in range(m)]
+            cov = [[_dy(rng, 0, 8, 2) if a == b else _dy(rng, -2, 2, 2) for b in range(m)] for a in range(m)]
+            sc = {"form": "scalar", "val": _dy(rng, 0, 8, 2)} if sform == "scalar" else \
+                {"form": "vec", "val": [_dy(rng, 0, 8, 2)]}
+            yield {"kind": "direct", "shape": "direct-region", "conf": "ell", "m": m, "covshape": "mm",
+                   "iter": False, "pre": None, "mean": mean, "cov": cov, "scale": sc}
+
+
+def _run_direct(ctx, case):
+    from vopy.confidence_region import EllipsoidalConfidenceRegion, RectangularConfidenceRegion
+
+    m = case["m"]
+    mean = np.array(case["mean"], dtype=float)
+    cov = np.array(case["cov"], dtype=float).reshape((m, m) if case["covshape"] == "mm" else (1, m, m))
+    sc_arr = _np_scale(case["scale"])
+    row = [case["scale"]["val"]] if case["scale"]["form"] == "scalar" else list(case["scale"]["val"])
+    ctx.count(f"direct_m{m}_{case['conf']}_{case['covshape']}")
+    if case["conf"] == "ell":
+        reg = EllipsoidalConfidenceRegion(m)
+    elif case["pre"] is None:
+        reg = RectangularConfidenceRegion(m, intersect_iteratively=case["iter"])
+    else:
+        reg = RectangularConfidenceRegion(m, np.array(case["pre"][0], dtype=float),
+                                          np.array(case["pre"][1], dtype=float), intersect_iteratively=case["iter"])
+    if case["conf"] == "rect":
+        lo0, up0 = [core.frac(x) for x in reg.lower], [core.frac(x) for x in reg.upper]
+    try:
+        reg.update(mean, cov, sc_arr)
+    except Exception as e:
+        ctx.violation("update-crash:" + core.exc_key(e) + (":m1" if m == 1 else ""),
+                      f"region.update raised {type(e).__name__} on a well-formed call (objective dimension {m}, "
+                      f"covariance shape {cov.shape})", case)
+        return
+    if case["conf"] == "ell":
+        good = np.array_equal(np.asarray(reg.center), mean) and np.array_equal(np.asarray(reg.sigma), cov) and \
+            np.asarray(reg.alpha).size == 1 and float(np.asarray(reg.alpha).reshape(-1)[0]) == float(row[0])
+        if not good:
+            ctx.violation("ell-listed", "updated ellipsoid is not (mean, cov, scale)", case)
+    else:
+        std = np.sqrt(np.diag(np.array(case["cov"], dtype=float)))
+        ans = ctx.ask("rect", "0", core.qvec(lo0), core.qvec(up0), "1" if case["iter"] else "0",
+                      core.qvec(mean), core.qvec(std), core.qvec(row)).split(" ")
+        if ans[0] != "ok":
+            ctx.violation("driver-rect", f"driver answered {ans}", case, kind="F")
+            return
+        lo, up = core.parse_qvec(ans[1]), core.parse_qvec(ans[2])
+        cmp_ = _Cmp(True, Fraction(0))
+        if not (cmp_.vec(reg.lower, lo) and cmp_.vec(reg.upper, up)):
+            ctx.violation("rect-listed-iter" if case["iter"] else "rect-listed",
+                          "region.update: rectangle is not [mean ± scale*std] (resp. its intersection with the "
+                          "previous rectangle)", case,
+                          detail={"impl_lower": np.asarray(reg.lower).tolist(), "impl_upper": np.asarray(reg.upper).tolist(),
+                                  "expected_lower": [float(x) for x in lo], "expected_upper": [float(x) for x in up]})
+    ctx.case_done(case, True)
+
+
 GP_CLASSES = ["IndependentExactGPyTorchModel", "CorrelatedExactGPyTorchModel", "GPyTorchModelListExactModel"]
 
 
@@ -398,8 +478,7 @@ def gen(ctx):
     plan = ["stub-exact", "stub-geo", "stub-generic", "empirical", "gp-fixed", "gp-adaptive", "stub-adaptive",
             "stub-exact", "gp-fixed", "stub-geo"]
     if ctx.worker == 0:
-        yield {"kind": "m1probe", "shape": "m1-probe", "m": 1, "conf": "rect", "model": {"kind": "stub"},
-               "points": [[0.0, 0.0], [1.0, 2.0]], "ops": []}
+        yield from _direct_cases(ctx.seed)
     for k in range(ctx.n(300, 10000)):
         shape = plan[k % len(plan)]
         if shape == "stub-exact":
@@ -411,11 +490,11 @@ def gen(ctx):
         elif shape == "stub-adaptive":
             yield _case_adaptive(rng, {"kind": "stub"})
         elif shape == "empirical":
-            yield _case_real(rng, {"kind": "empirical", "m": rng.choice([2, 3]), "seed": rng.randrange(10 ** 6),
+            yield _case_real(rng, {"kind": "empirical", "m": rng.choice([1, 2, 3]), "seed": rng.randrange(10 ** 6),
                                    "tv": rng.random() < 0.8})
         else:
             spec = {"kind": "gp", "cls": GP_CLASSES[(k // len(plan)) % 3], "d": rng.choice([1, 2]),
-                    "m": rng.choice([2, 2, 3]), "ntrain": rng.randint(2, 6), "noise": rng.choice([0.1, 0.01, 0.5]),
+                    "m": rng.choice([1, 2, 2, 3]), "ntrain": rng.randint(2, 6), "noise": rng.choice([0.1, 0.01, 0.5]),
                     "seed": rng.randrange(10 ** 6)}
             yield _case_real(rng, spec) if shape == "gp-fixed" else _case_adaptive(rng, spec)
 
@@ -494,20 +573,10 @@ def run_case(ctx, case):
     from vopy.design_space import AdaptivelyDiscretizedDesignSpace, FixedPointsDesignSpace
 
     ctx.count("shape_" + case["shape"])
-    if case["kind"] == "m1probe":
-        # information only (outside ASSUMPTIONS): a single objective makes np.diag(cov.squeeze()) raise
-        ds = FixedPointsDesignSpace(np.array(case["points"], dtype=float), 1)
-        stub = _Stub().make()
-        stub.points, stub.means, stub.covs = ds.points, np.array([[1.0], [2.0]]), np.array([[[4.0]], [[1.0]]])
-        try:
-            ds.update(stub, np.array(2.0), [1, 0])
-            ctx.count("m1_rect_update_ok_info")
-        except Exception as e:
-            ctx.count("m1_rect_update_raises_" + type(e).__name__ + "_info")
-            ctx.info("objective_dim=1: RectangularConfidenceRegion.update raises " + type(e).__name__ +
-                     " (np.diag of a 0-d array); not counted as a violation (m >= 2 assumed)")
-        ctx.case_done(case, False)
+    if case["kind"] == "direct":
+        _run_direct(ctx, case)
         return
+    ctx.count("m_%d" % case["m"])
     m, conf, mk = case["m"], case["conf"], case["model"]["kind"]
     exact = bool(case.get("exact"))
     cmp_ = _Cmp(exact, Fraction(1, 10 ** 9) if mk == "gp" else Fraction(1, 10 ** 12))
@@ -659,10 +728,18 @@ def run_case(ctx, case):
         lean_ops.append("U:" + _lean_scale(sc) + ":" + core.nats(idx_l) + ":" + core.qmat(mu_full) + ":" +
                         core.qmat(std_full) + ":" + core.qmats(cov_full))
         impl_states.append((status, after))
+        if m == 1 and conf == "rect" and not valid and status == "ok":
+            # numpy quirk outside the property: a (1,)-std broadcasts against a scale row of any size k, so a
+            # malformed scale is accepted for a single objective and leaves k-entry bounds; the Lean model
+            # (ValueError, as for m >= 2) is not compared from here on
+            ctx.count("m1_wide_scale_row_broadcasts_info")
+            lean_ops.pop()
+            impl_states.pop()
+            break
         single = len(idx_l) == 1
         if valid and status != "ok":
             key = ("single-design-mean-squeezed:" + cls_name) if (single and cls_name in SQUEEZERS) else \
-                ("update-crash:" + core.exc_key(err))
+                ("update-crash:" + core.exc_key(err) + (":m1" if m == 1 else ""))
             if _MUTE and key.startswith("single-design-mean-squeezed:"):
                 ctx.count("squeeze_muted")
                 return
